@@ -75,11 +75,11 @@ func runR053(c *core.Ctx) {
 	}
 	isPre := func(call *ast.CallExpr) bool {
 		f := core.Callee(inf, call)
-		return f != nil && f.Name() == "PreRequest" && core.IsMethod(f, pkgPath(c, rel), "", "PreRequest")
+		return f != nil && core.NameOf(f) == "PreRequest" && core.IsMethod(f, pkgPath(c, rel), "", "PreRequest")
 	}
 	isPost := func(call *ast.CallExpr) bool {
 		f := core.Callee(inf, call)
-		return f != nil && f.Name() == "PostRequest" && core.IsMethod(f, pkgPath(c, rel), "", "PostRequest")
+		return f != nil && core.NameOf(f) == "PostRequest" && core.IsMethod(f, pkgPath(c, rel), "", "PostRequest")
 	}
 	// 1. must-precede: three keys + WithContext before PreRequest and before the handler
 	flow := core.NewFlow(c.M, inf, recv.Body)
@@ -97,7 +97,7 @@ func runR053(c *core.Ctx) {
 				case isWithValue(call, keys["entitySegmentsCtxKey"]):
 					state |= 4
 				}
-				if f := core.Callee(inf, call); f != nil && f.Name() == "WithContext" && core.IsMethod(f, "net/http", "Request", "WithContext") {
+				if f := core.Callee(inf, call); f != nil && core.NameOf(f) == "WithContext" && core.IsMethod(f, "net/http", "Request", "WithContext") {
 					state |= 8
 				}
 				if isPre(call) {
@@ -254,7 +254,7 @@ func runR053(c *core.Ctx) {
 		okKey := false
 		ast.Inspect(gd.Body, func(n ast.Node) bool {
 			if call, ok := n.(*ast.CallExpr); ok && len(call.Args) == 1 {
-				if f := core.Callee(inf, call); f != nil && f.Name() == "Value" && core.ObjOf(inf, call.Args[0]) == keys[key] {
+				if f := core.Callee(inf, call); f != nil && core.NameOf(f) == "Value" && core.ObjOf(inf, call.Args[0]) == keys[key] {
 					okKey = true
 				}
 			}
@@ -285,18 +285,24 @@ func descendingLoop(inf *types.Info, loop *ast.ForStmt, call *ast.CallExpr) (boo
 	if cv := core.ConstOf(inf, be.Y); cv == nil || cv.ExactString() != "1" {
 		return false, "index does not start at len(x)-1"
 	}
-	cond, ok := core.Unparen(loop.Cond).(*ast.BinaryExpr)
-	if !ok {
+	if loop.Cond == nil {
 		return false, "no loop condition"
 	}
+	// the condition holds only while i >= 0 (further conjuncts only end the loop earlier, like a break)
 	okCond := false
-	if core.ObjOf(inf, cond.X) == idx {
-		if cv := core.ConstOf(inf, cond.Y); cv != nil {
-			okCond = (cond.Op == token.GEQ && cv.ExactString() == "0") || (cond.Op == token.GTR && cv.ExactString() == "-1")
+	for _, f := range core.Decompose(loop.Cond, true, nil) {
+		cond, ok := core.Unparen(f.Expr).(*ast.BinaryExpr)
+		if !ok || !f.Val {
+			continue
 		}
-	} else if core.ObjOf(inf, cond.Y) == idx {
-		if cv := core.ConstOf(inf, cond.X); cv != nil {
-			okCond = (cond.Op == token.LEQ && cv.ExactString() == "0") || (cond.Op == token.LSS && cv.ExactString() == "-1")
+		if core.ObjOf(inf, cond.X) == idx {
+			if cv := core.ConstOf(inf, cond.Y); cv != nil {
+				okCond = okCond || (cond.Op == token.GEQ && cv.ExactString() == "0") || (cond.Op == token.GTR && cv.ExactString() == "-1")
+			}
+		} else if core.ObjOf(inf, cond.Y) == idx {
+			if cv := core.ConstOf(inf, cond.X); cv != nil {
+				okCond = okCond || (cond.Op == token.LEQ && cv.ExactString() == "0") || (cond.Op == token.LSS && cv.ExactString() == "-1")
+			}
 		}
 	}
 	if !okCond {
